@@ -906,7 +906,11 @@ func secondStoreHistory(c *drv.Ctx, bin string, i int, seed int64, types []strin
 		}
 		nw, err := drv.StartWorker(bin, dir, drv.StartOpts{})
 		if err != nil {
-			return fmt.Errorf("restart with second-store mapping: %v; stderr: %s", err, drv.Trunc(nw.Stderr(), 800))
+			se := ""
+			if nw != nil {
+				se = drv.Trunc(nw.Stderr(), 800)
+			}
+			return fmt.Errorf("restart with second-store mapping: %v; stderr: %s", err, se)
 		}
 		w = nw
 		x.w = nw
